@@ -320,6 +320,10 @@ pub fn run(a: &Args) {
         }
     }
     for chunk in subs.chunks(6) {
+        if crate::l2::timeouts() >= crate::l2::ENOUGH_TIMEOUTS {
+            sink.count("stopped-early-after-timeouts");
+            break;
+        }
         let hs: Vec<_> = chunk.iter().map(|&s| std::thread::spawn(move || (s, scenario(s)))).collect();
         for h in hs {
             match h.join() {
